@@ -14,6 +14,7 @@ import Rl.Drv.Completion
 import Rl.Drv.HistFile
 import Rl.Drv.RawMode
 import Rl.Drv.Printer
+import Rl.Drv.Sqlite
 open Rl Rl.Wire
 
 def dispatch (tbl : CharTable) (target : String) (f : List String) (impl : String) : String × String :=
@@ -26,6 +27,7 @@ def dispatch (tbl : CharTable) (target : String) (f : List String) (impl : Strin
     | "hf" => Rl.Drv.HistFile.handle tbl f impl
     | "raw" => Rl.Drv.RawMode.handle tbl f impl
     | "pr" => Rl.Drv.Printer.handle tbl f impl
+    | "sqlite" => Rl.Drv.Sqlite.handle tbl f impl
     | "comp" | "clcp" | "cfs" => Rl.Drv.Completion.handle target tbl f impl
     | _ =>
       if target.startsWith "ed" then Rl.Drv.Ed.handle tbl target f impl
